@@ -112,6 +112,19 @@ type DivByZero struct{ Pos token.Pos }
 
 func (d *DivByZero) Error() string { return "integer division by zero (the real code would panic)" }
 
+// Panic is returned when interpreted code reaches a run-time panic other than
+// a nil dereference or a division by zero (index or slice bounds, negative make).
+type Panic struct {
+	Pos  token.Pos
+	What string
+}
+
+func (p *Panic) Error() string { return p.What + " (the real code would panic)" }
+
+func panicf(pos token.Pos, format string, a ...any) error {
+	return &Panic{Pos: pos, What: fmt.Sprintf(format, a...)}
+}
+
 // NilDeref is returned when interpreted code dereferences a nil pointer (a run-time panic in Go).
 type NilDeref struct{ Pos token.Pos }
 
@@ -561,6 +574,9 @@ func (f *frame) stmt(s ast.Stmt) (ctl, error) {
 		return ctlNone, f.store(s.X, n)
 	case *ast.DeclStmt:
 		gd, ok := s.Decl.(*ast.GenDecl)
+		if ok && (gd.Tok == token.TYPE || gd.Tok == token.CONST) {
+			return ctlNone, nil // local types and constants are resolved through go/types
+		}
 		if !ok || gd.Tok != token.VAR {
 			return ctlNone, unsup(s.Pos(), "declaration")
 		}
@@ -1178,7 +1194,10 @@ func (f *frame) store(l ast.Expr, v Value) error {
 		}
 		sl, ok1 := xv.(*Slice)
 		idx, ok2 := iv.(int64)
-		if !ok1 || !ok2 || sl == nil || idx < 0 || int(idx) >= len(*sl.Elems) {
+		if ok2 && (ok1 || xv == nil) && (sl == nil || idx < 0 || int(idx) >= len(*sl.Elems)) {
+			return panicf(l.Pos(), "index %d out of range in a store", idx)
+		}
+		if !ok1 || !ok2 {
 			return unsup(l.Pos(), "index store")
 		}
 		if cur, ok := (*sl.Elems)[idx].(*Rec); ok && cur != nil && f.in.pinned[cur] {
@@ -1499,6 +1518,14 @@ func (f *frame) exprMulti(e ast.Expr) ([]Value, error) {
 					}
 				}
 			}
+			if se, ok := ast.Unparen(e.X).(*ast.SelectorExpr); ok && f.info.Selections[se] != nil {
+				// pointer to a struct-typed field: share the field's record
+				if v, err := f.lvalueBase(se); err == nil {
+					if rec, ok := v.(*Rec); ok && rec != nil {
+						return []Value{&Obj{Name: "&field", Fields: rec.Fields, T: rec.T}}, nil
+					}
+				}
+			}
 			return nil, unsup(e.Pos(), "address-of")
 		}
 		return nil, unsup(e.Pos(), "unary %v", e.Op)
@@ -1572,7 +1599,7 @@ func (f *frame) exprMulti(e ast.Expr) ([]Value, error) {
 		if str, ok := xv.(string); ok {
 			idx, ok := iv.(int64)
 			if !ok || idx < 0 || int(idx) >= len(str) {
-				return nil, unsup(e.Pos(), "string index %v out of range for length %d (the real code would panic)", iv, len(str))
+				return nil, panicf(e.Pos(), "string index %v out of range for length %d", iv, len(str))
 			}
 			return []Value{int64(str[idx])}, nil
 		}
@@ -1594,8 +1621,15 @@ func (f *frame) exprMulti(e ast.Expr) ([]Value, error) {
 		}
 		sl, ok1 := xv.(*Slice)
 		idx, ok2 := iv.(int64)
-		if !ok1 || !ok2 || sl == nil || idx < 0 || int(idx) >= len(*sl.Elems) {
-			return nil, unsup(e.Pos(), "index %v out of range or not a slice (the real code would panic)", iv)
+		if ok2 && (ok1 || xv == nil) && (sl == nil || idx < 0 || int(idx) >= len(*sl.Elems)) {
+			n := 0
+			if sl != nil {
+				n = len(*sl.Elems)
+			}
+			return nil, panicf(e.Pos(), "index %d out of range with length %d", idx, n)
+		}
+		if !ok1 || !ok2 {
+			return nil, unsup(e.Pos(), "index %v of %T", iv, xv)
 		}
 		return []Value{(*sl.Elems)[idx]}, nil
 	case *ast.SliceExpr:
@@ -1620,7 +1654,7 @@ func (f *frame) exprMulti(e ast.Expr) ([]Value, error) {
 				hi = int(v.(int64))
 			}
 			if lo < 0 || hi > len(str) || lo > hi {
-				return nil, unsup(e.Pos(), "string slice [%d:%d] out of range for length %d (the real code would panic)", lo, hi, len(str))
+				return nil, panicf(e.Pos(), "string slice [%d:%d] out of range for length %d", lo, hi, len(str))
 			}
 			return []Value{str[lo:hi]}, nil
 		}
@@ -1648,7 +1682,7 @@ func (f *frame) exprMulti(e ast.Expr) ([]Value, error) {
 			hi = int(v.(int64))
 		}
 		if lo < 0 || hi > n || lo > hi {
-			return nil, unsup(e.Pos(), "slice bounds out of range [%d:%d] with length %d (the real code would panic)", lo, hi, n)
+			return nil, panicf(e.Pos(), "slice bounds out of range [%d:%d] with length %d", lo, hi, n)
 		}
 		var part []Value
 		if sl != nil {
@@ -1958,6 +1992,24 @@ func (f *frame) compositeLit(e *ast.CompositeLit) (Value, error) {
 	return r, nil
 }
 
+// pack gathers the trailing arguments of a call to a variadic source function into a slice.
+func (f *frame) pack(e *ast.CallExpr, args []Value) []Value {
+	sig, ok := f.info.TypeOf(e.Fun).(*types.Signature)
+	if !ok || !sig.Variadic() || e.Ellipsis.IsValid() {
+		return args
+	}
+	n := sig.Params().Len() - 1
+	if len(args) < n {
+		return args
+	}
+	rest := append([]Value(nil), args[n:]...)
+	var packed Value = (*Slice)(nil)
+	if len(rest) > 0 {
+		packed = &Slice{Elems: &rest}
+	}
+	return append(append([]Value(nil), args[:n]...), packed)
+}
+
 // toParam models the conversion of an argument to an interface-typed
 // parameter: a nil pointer becomes a non-nil interface holding a typed nil.
 func (f *frame) toParam(e *ast.CallExpr, i int, a ast.Expr, v Value) Value {
@@ -2120,8 +2172,11 @@ func (f *frame) call(e *ast.CallExpr) ([]Value, error) {
 					}
 					n, _ = v.(int64)
 				}
-				if n < 0 || n > 1000 {
-					return nil, unsup(e.Pos(), "make([]T, %d): negative or huge length (the real code would panic or exhaust memory)", n)
+				if n < 0 {
+					return nil, panicf(e.Pos(), "make([]T, %d): negative length", n)
+				}
+				if n > 1000 {
+					return nil, unsup(e.Pos(), "make([]T, %d): huge length", n)
 				}
 				elems := make([]Value, n)
 				for i := range elems {
@@ -2204,7 +2259,7 @@ func (f *frame) call(e *ast.CallExpr) ([]Value, error) {
 		}
 		switch fn := fv.(type) {
 		case *Closure:
-			return f.in.callDecl(fn.Info, nil, fn.Lit.Type, fn.Lit.Body, fn.Env, nil, args)
+			return f.in.callDecl(fn.Info, nil, fn.Lit.Type, fn.Lit.Body, fn.Env, nil, f.pack(e, args))
 		case *Stub:
 			return fn.Fn(f.in, args)
 		}
@@ -2259,14 +2314,14 @@ func (f *frame) call(e *ast.CallExpr) ([]Value, error) {
 							return st(f.in, recv, args)
 						}
 						if target := f.in.Prog.Func(r.T[:i], r.T[i+1:]+"."+fnObj.Name()); target != nil {
-							return f.in.Call(target, recv, args)
+							return f.in.Call(target, recv, f.pack(e, args))
 						}
 					}
 				}
 				if _, isSlice := recv.(*Slice); isSlice {
 					// untagged slice value: dispatch if exactly one named slice type of the module has this method
 					if target := f.in.uniqueSliceMethod(fnObj.Name()); target != nil {
-						return f.in.Call(target, recv, args)
+						return f.in.Call(target, recv, f.pack(e, args))
 					}
 				}
 				return nil, unsup(e.Pos(), "interface method %s on %T without a known dynamic type", name, recv)
@@ -2300,7 +2355,7 @@ func (f *frame) call(e *ast.CallExpr) ([]Value, error) {
 						recv = &Obj{Name: "&recv", Fields: r.Fields, T: r.T}
 					}
 				}
-				return f.in.Call(target, recv, args)
+				return f.in.Call(target, recv, f.pack(e, args))
 			}
 		}
 	}
